@@ -34,6 +34,15 @@ example : 12610078956637388 = 2 * 0x16666666666666 := by decide
 including those beyond 2^53 where `n as f64` itself rounds. -/
 theorem threshold_le (n : Nat) : thrF64 n ≤ n := thrF64_le n
 
+/-- The margin is 30 %: for every count below 2^49 the mirrored threshold is `0.7 · n` rounded to
+an integer at distance at most one half (`|10·thr n − 7·n| ≤ 5`; at exact halves binary64 may go
+either way, see `threshold_not_naive`). -/
+theorem threshold_is_seventy_percent (n : Nat) (h : n < 2 ^ 49) :
+    7 * n ≤ 10 * thrF64 n + 5 ∧ 10 * thrF64 n ≤ 7 * n + 5 := by
+  unfold thrF64
+  rw [threshold_mirror_constant]
+  exact thrWith_seventy n h
+
 /-- The mirrored threshold is NOT `⌊(7n+5)/10⌋`: it first differs at n = 45 (31.499999999999996
 rounds to 31, the exact 31.5 would round to 32). -/
 theorem threshold_not_naive : thrF64 45 = 31 ∧ (7 * 45 + 5) / 10 = 32 ∧ thrF64 85 = 59 ∧ thrF64 10 = 7 := by
